@@ -8,7 +8,8 @@ open Desync
 private def samePairs (a b : List (String × String)) : Bool :=
   a.length == b.length && a.all (b.contains ·) && b.all (a.contains ·)
 
-/-- `TarReader.Next` hands out the pending root or builds the `File` that `TarFS.readerFile` builds from the header
+/-- `TarReader.Next` hands out the pending root; otherwise it reads on while the header is a PAX global header
+    (`TarFS.skipGlobal`), fails on a hard link, and builds the `File` that `TarFS.readerFile` builds from the header
     `fs.r.Next()` returned (an error of that call is passed on); `NewTarReader` prepares the root `TarFS.rootFile` -/
 theorem gen_tarfs_reader :
     (Gen.site_tarfs_ReaderNext_found && Gen.site_tarfs_NewTarReader_found) = true ∧
@@ -18,7 +19,10 @@ theorem gen_tarfs_reader :
        ("Uid", "h.Uid"), ("Gid", "h.Gid"), ("Xattrs", "h.Xattrs"), ("DevMajor", "uint64(h.Devmajor)"),
        ("DevMinor", "uint64(h.Devminor)"), ("Data", "ioutil.NopCloser(fs.r)")] = true ∧
     Gen.tarfsReaderNextBody = ["if fs.root!=nil: f=fs.root", "if fs.root!=nil: fs.root=nil",
-      "if fs.root!=nil: return f,nil", "h,err=fs.r.Next()", "if err!=nil: return nil,err", "info=h.FileInfo()",
+      "if fs.root!=nil: return f,nil", "h,err=fs.r.Next()", "if err!=nil: return nil,err",
+      "for h.Typeflag==gnutar.TypeXGlobalHeader: h,err=fs.r.Next()",
+      "for h.Typeflag==gnutar.TypeXGlobalHeader: if err!=nil: return nil,err",
+      "if h.Typeflag==gnutar.TypeLink: return nil,<new error>", "info=h.FileInfo()",
       "f=&File{…}", "return f,nil"] ∧
     samePairs Gen.tarfsRootFile [("Name", "\".\""), ("Path", "\".\""), ("Mode", "os.ModeDir|0755")] = true ∧
     Gen.tarfsRootFileCond = ["opts.AddRoot"] := by
